@@ -205,8 +205,9 @@ class CompoundQuery(qcore.Query):
     def simplify(self, ixreader):
         subs = self.subqueries
         if subs:
-            q = self.__class__([subq.simplify(ixreader) for subq in subs],
-                               boost=self.boost).normalize()
+            # apply() keeps the settings of subclasses (and works for binary
+            # queries, whose constructor takes two queries)
+            q = self.apply(lambda subq: subq.simplify(ixreader)).normalize()
         else:
             q = qcore.NullQuery
         return q
